@@ -62,6 +62,10 @@ EX1_MODELS = "tests.input.example1.nestedmodel"
 FIXTURE_JSON = "tests/output/all_test_flows.json"
 
 RENDER_COMPLETES = "render-completes-absent-ids-seen-by-to_rows"
+# The literal reading of "neither operation changes what the other returns" makes this a (low-severity)
+# finding, listed in findings.d/C13.json.  Should it be reclassified as intended behaviour, set this to
+# False (the occurrences are then only counted in the evidence) and drop the findings.d entry.
+REPORT_RENDER_COMPLETES = True
 
 
 # ================================================================== abstract workbooks
@@ -1077,6 +1081,10 @@ def run(ctx):
                 if key in reported:
                     continue
                 reported.add(key)
+                if key == RENDER_COMPLETES:
+                    ostats["render_completes_ids_seen"] = ostats.get("render_completes_ids_seen", 0) + 1
+                    if not REPORT_RENDER_COMPLETES:
+                        continue
                 small = hist
                 if key != RENDER_COMPLETES and v.viol_by_key.get(key, 0) < 2 and not any(k["key"] == key for k in v.known):
                     small = shrink(lab, hist, key, seeds[:2] if key != "hashseed-dependent-output" else seeds)
